@@ -194,6 +194,14 @@ func OnceDo(o *sync.Once, f func()) {
 	f()
 }
 
+// ResetOnce forgets which Once bodies have run (the harness restores the
+// package-level state they initialised before every scenario).
+func ResetOnce() {
+	if !on {
+		onceDone = map[*sync.Once]bool{}
+	}
+}
+
 func syncReset() {
 	locks = map[interface{}]*lockState{}
 	lockDepth = map[int]int{}
